@@ -58,6 +58,7 @@ TABLE_LABELS = ['X', '.', '0', '1', '42', 'a b', 'ä', '€', ',', ';', '!', '"'
                 'x\ty', '-', '!!', '=', '*', '<>', 'B', '\\', 'x\\n', '{}', 'None', 'True',
                 'lorem ipsum dolor sit amet ' * 4 + 'end',      # > 100 characters with blanks
                 'e\u0301', '\u00e9',      # canonically equivalent, different strings
+                '\U0001F600', 'a\U0001D400b',     # beyond the Basic Multilingual Plane
                 '+', ':', '-=-', '--+--', ';;', 'a;b;c', '\t\t'.strip() or '::']
 CXT_LABELS = TABLE_LABELS + ['|', '#', 'a|b', '#x', 'a#b', '||',
                              # separators that are not line breaks of a text file (only \n / \r are)
@@ -180,6 +181,17 @@ def execute(fmt, objs, props, rows, cfg, ctr):
     enc = cfg['encoding']
     ctr['calls'] += 1
     if api in ('string', 'make_context'):
+        # exports of the SAME context object under the other option values come first: what
+        # an export says depends on its own options, not on an earlier export
+        alts = {'csv': ({}, {'dialect': 'excel-tab'}, {'dialect': Semicolon}, {'bools_as_int': True},
+                        {'bools_as_int': False}),
+                'table': ({}, {'indent': 1}, {'indent': 4})}.get(fmt, ())
+        for kw in alts:
+            if kw != dump_kw:
+                try:
+                    ctx.tostring(fmt, **kw)
+                except Exception:
+                    pass
         text = ctx.tostring(fmt, **dump_kw)
         if api == 'make_context' and not load_kw:
             back = concepts.make_context(text, frmat=fmt)
